@@ -171,7 +171,7 @@ func branchLabel(in ssa.Instruction) string {
 // ruleTrSeqAfterFlush: OpenTransaction captures db.seq only after waiting for an in-flight
 // frozen buffer (or after establishing that there is none).
 func ruleTrSeqAfterFlush(p *Prog, r *Report, rule string) {
-	r.Begin(rule, "E-ORD", "a transaction never records a sequence number ahead of an unflushed frozen buffer: in OpenTransaction every path to the capture of db.seq waits for the frozen-buffer flush (compTriggerWait(mcompCmdC), directly or via rotateMem) or has found no frozen buffer", 1)
+	r.Begin(rule, "E-ORD", "a transaction never records a sequence number ahead of an unflushed frozen buffer: in OpenTransaction every path to the capture of db.seq waits for the flush of the buffer frozen LAST (compTriggerWait(mcompCmdC) directly, or a helper that — with the constants passed at the call site — waits after its last newMem: rotateMem(n, true), not rotateMem(n, false)) or has found no frozen buffer", 1)
 	defer r.End()
 	fn := resolveFn(p, r, "leveldb", "(*DB).OpenTransaction")
 	if fn == nil {
